@@ -2,7 +2,6 @@ package c19
 
 import (
 	"fmt"
-	"sort"
 	"strings"
 )
 
@@ -201,30 +200,6 @@ type Rewrite struct {
 
 func (rw Rewrite) String() string {
 	return fmt.Sprintf("P=%s D=%s S=%s Y=%s F=%s", rw.P, rw.D, rw.S, rw.Y, rw.F)
-}
-
-// Dims names the non-identity dimensions (the rewrite family, used in signatures).
-func (rw Rewrite) Dims() string {
-	var d []string
-	if !rw.P.id() {
-		d = append(d, "reorder")
-	}
-	if rw.D != DNone {
-		d = append(d, rw.D.String())
-	}
-	if !rw.S.id() {
-		d = append(d, "split")
-	}
-	if !rw.Y.id() {
-		d = append(d, "json-"+jspellNames[rw.Y.Spell])
-	}
-	if rw.F != FNone {
-		d = append(d, rw.F.String())
-	}
-	if len(d) == 0 {
-		return "identity"
-	}
-	return strings.Join(d, "+")
 }
 
 // ---- applying a rewrite ----------------------------------------------------------
@@ -753,9 +728,9 @@ func isIdentity(p []int) bool {
 
 // Limits bound the option sets per tier.
 type Limits struct {
-	MaxPermGroups  int // all permutations up to this many groups, a generating family above
-	SplitFiles     int // 2 or 3
-	MaxSplitItems  int // all assignments up to this many items, contiguous cuts above
+	MaxPermGroups  int  // all permutations up to this many groups, a generating family above
+	SplitFiles     int  // 2 or 3
+	MaxSplitItems  int  // all assignments up to this many items, contiguous cuts above
 	PairPermFamily bool // in pairs use only the generating family of permutations
 	PairSplitCuts  bool // in pairs with P use only contiguous cuts
 	MixedSpellings []JSpelling
@@ -963,13 +938,4 @@ func fOptions() []FOpt {
 		out = append(out, f)
 	}
 	return out
-}
-
-func sortedKeys(m map[string]int) []string {
-	var ks []string
-	for k := range m {
-		ks = append(ks, k)
-	}
-	sort.Strings(ks)
-	return ks
 }
